@@ -745,6 +745,28 @@ pub fn numeric_engine(e: &EngA) -> (EngA, Vec<Prog>, Vec<Prog>) {
         }
       }
     }
+    // long-tag family: bounds whose tag has 3..6 identifiers (a parser, comparison or printer that
+    // handles only the first identifiers; C13-6), every operator, hyphen and two-comparator forms
+    let long_tags = ["a.b.1", "rc.1.5", "0.0.0", "1.2.3.4.5.6", "a.0.b.1"];
+    let mut longvs: Vec<Version> = vec![];
+    for (i, t) in long_tags.iter().enumerate() {
+        for op in ALL_OPS {
+            singles.push(prog_single(op, &fullp(1, 2, 3, t)));
+        }
+        let parts: Vec<&str> = t.split('.').collect();
+        for k in 1..=parts.len() {
+            for (a, b, c) in [(1, 2, 3), (1, 2, 4)] {
+                longvs.push(ver(a, b, c, &parts[..k].join(".")));
+                longvs.push(ver(a, b, c, &format!("{}.0", parts[..k].join("."))));
+            }
+        }
+        for t2 in &long_tags[i + 1..] {
+            singles.push(vec![Alt::Hyphen(fullp(1, 2, 3, t), fullp(1, 2, 4, t2))]);
+            singles.push(vec![Alt::Set(vec![Simple::P(Op::Ge, fullp(1, 2, 3, t)), Simple::P(Op::Lt, fullp(1, 2, 3, t2))])]);
+            singles.push(vec![Alt::Set(vec![Simple::P(Op::Gt, fullp(1, 2, 3, t2)), Simple::P(Op::Le, fullp(1, 2, 3, t))])]);
+            singles.push(vec![Alt::Set(vec![Simple::P(Op::Lt, fullp(1, 2, 3, t))]), Alt::Set(vec![Simple::P(Op::Ge, fullp(1, 2, 4, t2))])]);
+        }
+    }
     let mut bvs = vec![];
     for p in &singles {
         if let Some(s) = desugar(p) {
@@ -753,6 +775,7 @@ pub fn numeric_engine(e: &EngA) -> (EngA, Vec<Prog>, Vec<Prog>) {
     }
     let mut vs = critical_points(&bvs);
     vs.extend(bitvs);
+    vs.extend(longvs);
     for tag in ["", "0", "a", "b", "c"] {
         vs.push(ver(1, 2, 3, tag));
     }
